@@ -105,4 +105,27 @@ theorem mergePairs_src : ∀ (n : Nat), Src.mergePairs n = ((Src.survivors n).fi
     simp
     omega
 
+
+/-! ### `_worker` (required by the translator to read exactly as modelled): record accounting and the pill test -/
+
+/-- the worker's `n_records` after processing `got` is the model's `workerRecords`: the sum of the callback's return values over the
+    items on which it did not raise -/
+theorem workerRecords_src {I K : Type} (cb : I → Outcome K) (got : List I) (n0 : Nat) :
+    got.foldl (fun n x => Src.workerTurn n (cb x).ret) n0 = n0 + workerRecords cb got := by
+  induction got generalizing n0 with
+  | nil => simp [workerRecords]
+  | cons x xs ih =>
+    rw [List.foldl_cons, ih]
+    simp only [workerRecords, List.map_cons, List.sum_cons, Src.workerTurn]
+    cases (cb x).ret <;> simp <;> omega
+
+/-- only the poison pill (`None`) stops a worker: every item, whatever its truth value, is processed -/
+theorem workerIsItem_src {I : Type} (q : Option I) : Src.workerIsItem q = true ↔ q ≠ none := by
+  cases q <;> simp [Src.workerIsItem]
+
+/-- at the pill the worker adds exactly its record total to the sketch's second bookkeeping counter -/
+theorem workerFinish_src {I K : Type} (cb : I → Outcome K) (got : List I) (r0 : Nat) :
+    Src.workerFinish r0 (got.foldl (fun n x => Src.workerTurn n (cb x).ret) 0) = r0 + workerRecords cb got := by
+  rw [workerRecords_src]; simp [Src.workerFinish]
+
 end Sketchnu.SrcPar
